@@ -155,7 +155,7 @@ def check_response(ctx, call, app, when):
         ctx.problem('C10:response-read-error', f'{m} {when}: reading app.response raised {type(e).__name__}: {e}')
         return
     exp = {'status_code': call['status'], 'x_r': 'r' + m, 'cookie': 'k' + m, 'ctype': 'text/plain; charset=UTF-8',
-           'n_headers': 2}
+           'n_headers': 3}
     for k, v in exp.items():
         if got[k] != v:
             ctx.problem('C10:foreign-response-visible',
@@ -214,8 +214,10 @@ def serve(ctx, call):
         if r.body != ('body-' + m).encode():
             problems.append(f'body {r.body[:80]!r}, expected {("body-" + m).encode()!r}')
         names = sorted(k for k, _ in r.headers)
-        if names != ['Content-Length', 'Content-Type', 'Set-Cookie', 'X-R']:
+        if names != ['Content-Length', 'Content-Type', 'Set-Cookie', 'X-H', 'X-R']:
             problems.append(f'header names {names}')
+        if r.header('X-H') != 'h' + m:
+            problems.append(f'X-H header (set by the application\'s own before_request hook) {r.header("X-H")!r}')
     if problems:
         ctx.problem('C10:wrong-response', f'request {m} (app {call["app"]}): ' + '; '.join(problems)
                     + (f' [wsgi.errors: {r.errors_text[-300:]!r}]' if r.errors_text else ''))
@@ -339,6 +341,36 @@ def check_reads_bad(ctx, call, app, env):
 def install(ctx, app, idx):
     app.add_route('/r/<m>', ['GET', 'POST'], make_handler(ctx, app), overwrite=True)
     app.error(400)(make_error_handler(ctx, app))
+    if not getattr(app, '_sim_hooks', False):
+        # once per application object (the default application outlives the run); the hooks find the
+        # current run through the module-level context
+        app._sim_hooks = True
+
+        def before():
+            _hook(app, 'before')
+
+        def after():
+            _hook(app, 'after')
+        app.add_hook('before_request', before)
+        app.add_hook('after_request', after)
+
+
+def _hook(app, which):
+    ctx = _CTX
+    st = _stack()
+    if ctx is None or not st:
+        return
+    call, env = st[-1]
+    if call['app'] >= len(ctx.apps) or ctx.apps[call['app']] is not app:
+        ctx.problem('C10:foreign-hook-ran',
+                    f'a {which}_request hook registered on another application ran while request {call["m"]} of app '
+                    f'{call["app"]} was being served')
+        return
+    if which == 'before':
+        try:
+            app.response.headers['X-H'] = 'h' + call['m']
+        except Exception as e:   # noqa
+            ctx.problem('C10:response-read-error', f'{call["m"]} before-hook: {type(e).__name__}: {e}')
 
 
 # ---- generation ------------------------------------------------------------------------------
@@ -384,6 +416,16 @@ def gen_case(rng, tier):
 
 def summarise(case):
     return case
+
+
+def flush_process_state():
+    """One well-formed request with a fixed query string / cookie through a scratch application: overwrites
+    whatever an earlier run of this process may have left in process-wide scratch state, so that a run's
+    observations are caused by the run itself."""
+    import ombott
+    app = ombott.Ombott()
+    app.add_route('/f/<m>', 'GET', lambda m: 'flush')
+    call_app(app, make_environ('GET', '/f/x', 'm=flush&n=1', {'X-M': 'flush', 'Cookie': 'c=flush'}))
 
 
 def setup_worker():
@@ -436,6 +478,7 @@ def run_case(case):
     ctx = Ctx()
     set_ctx(ctx)
     del _stack()[:]
+    flush_process_state()
     build_apps(ctx, case)
     for call in case['top']:
         r = serve(ctx, call)
